@@ -9,6 +9,7 @@ from mir import strip_generics, AnchorMissing
 from nopanic import NoPanic, report
 from values import fmt
 import audit_facts
+import server_model as sm
 
 EXPLANATION = """
 (1) No per-worker exclusive bind: every socket bind reachable from a worker thread's entry (the closure passed to spawn inside the worker loop) is made on a
@@ -298,6 +299,18 @@ def run(ctx):
     ctx.check("keeps-serving", "no-worker-dies-while-serving(C08)", not bad8, "no reachable panic in a worker's serving code (C08 obligations hold: %d instances)" % len(sub8.instances),
               "a started worker can die while serving: " + (bad8[0]["detail"] if bad8 else ""), bad8[0].get("loc") if bad8 else None)
 
+    # every valid batch_size (1..=64, is_valid_config) makes the receive loop run at least once per event: a loop that is empty for the
+    # smallest documented value starts all workers and answers nothing
+    bl = sm.batch_loop(ctx, W)
+    its = {n: bl["iterations"](n) for n in (1, 2, 64)}
+    okb = all(v is not None and v >= 1 for v in its.values())
+    if bl["source"] is None:
+        # not a `for` over a range: the first receive must not depend on any counter test
+        okb = values.must_pass(bl["fn"], [bl["recv"]], from_block=0)
+    ctx.check("keeps-serving", "receive-loop-runs-for-every-valid-batch-size", okb,
+              "collect_requests reads at least one datagram per event for batch_size 1, 2, 64 (iterations %s)" % its,
+              "for a valid batch_size the receive loop does not run at all (iterations for batch_size 1/2/64: %s, loop over %s): the server starts, "
+              "passes its health check and never reads a request" % (its, values.fmt(bl["source"]) if bl["source"] else None), bl["fn"].loc(bl["header"]))
 
 def fixture(fctx):
     import fixture_checks
